@@ -444,7 +444,20 @@ def _loop_inside(E, inner, outer):
     return any(x is inn for x in _w(on.get("body")))
 
 
+def shared_weights(ctx):
+    """`with shared weights`: the repetitions are clones of the block's layer list and the coupled groups are {l + i*length | i in 0..loops} for every
+    l in 0..length - the groups the re-coupling step ties (C10's R10.1 facts re-run under this property)"""
+    from . import c10
+    sub = type(ctx)(ctx.prop, ctx.facts)
+    sub.guard("R10.1", "create", c10.r1, sub)
+    bad = [o for o in sub.obligations if o["status"] != "ok"]
+    for o in bad:
+        ctx.bad("R11.2", "shared-weights:" + o["instance"], o["key"].split("/", 3)[-1], o["where"], o["detail"])
+    ctx.check("R11.2", "shared-weights", not bad and len(sub.obligations) >= 3, "repetitions-not-tied", "src/feedback.rs", "%d facts about Feedback::create" % len(sub.obligations))
+
+
 def run(ctx):
+    ctx.guard("R11.2", "shared-weights", shared_weights, ctx)
     r = ctx.guard("R11.1", "dispatch", r1, ctx)
     ctx.guard("R11.1", "primitives", primitives, ctx, "R11.1")
     if r:
